@@ -13,9 +13,9 @@ use fcv_harness::{arg_usize, json_str, Rng};
 
 const TOKENS: &[&str] = &[
     "a", "b", ".", "-", "+", "(", "ż", "\\*", "?", "*", "**", "/", "[ab]", "[!a]", "{a,b/}", "@(a|b)", "?(a)",
-    "+(ab)", "*(a|.)",
+    "+(ab)", "*(a|.)", "{a|,b}", "@(a,|b)",
 ];
-const COMPONENTS: &[&str] = &["a", "b", ".a", "-", "ż", "ab", "a.b", "a\nb"];
+const COMPONENTS: &[&str] = &["a", "b", ".a", "-", "ż", "ab", "a.b", "a\nb", "a|"];
 
 struct Stats {
     globs: AtomicU64,
@@ -295,7 +295,7 @@ fn main() {
     let threads = arg_usize("--threads", 14);
     let mut rng = Rng(seed);
     let paths = build_paths(3, 300, &mut rng);
-    let rel_paths: Vec<String> = paths.iter().take(584).map(|p| p[1..].to_string()).collect();
+    let rel_paths: Vec<String> = paths.iter().take(paths.len() - 300).map(|p| p[1..].to_string()).collect();
 
     let stats = Stats {
         globs: AtomicU64::new(0),
